@@ -135,6 +135,10 @@ pub struct OpApplier<'a> {
     pub kv: Option<Bitcask>,
     /// number of threads of the process while no store of this applier is open
     pub base_threads: usize,
+    /// set/get/del travel as RESP commands through an in-process server over the store's handle
+    /// (one connection, re-established after the server ended it) instead of direct calls
+    pub via_resp: bool,
+    net: Option<(crate::netfx::ServerFx, Option<crate::netfx::RawClient>)>,
 }
 
 impl<'a> Drop for OpApplier<'a> {
@@ -151,6 +155,87 @@ impl<'a> OpApplier<'a> {
             dir: dir.to_path_buf(),
             kv: None,
             base_threads: crate::store::thread_count(),
+            via_resp: false,
+            net: None,
+        }
+    }
+
+    /// One RESP round trip.  A reply that is an error frame, or a connection that ends without a
+    /// reply, is the operation's error; no reply within 10 s is reported like a panic.
+    fn resp_roundtrip(&mut self, args: &[&[u8]]) -> Result<crate::resp::F, OpRes> {
+        use crate::netfx::{RawClient, ServerFx};
+        if self.net.is_none() {
+            let h = match &self.kv {
+                Some(kv) => kv.get_handle(),
+                None => return Err(OpRes::Err("store not open".into())),
+            };
+            let base = crate::store::thread_count();
+            match ServerFx::start_on_handle(h, 4, 1, base) {
+                Ok(s) => self.net = Some((s, None)),
+                Err(e) => return Err(OpRes::Panic(format!("harness: server start failed: {}", e))),
+            }
+        }
+        let (srv, cl) = self.net.as_mut().unwrap();
+        if cl.is_none() {
+            match RawClient::connect(&srv.addr()) {
+                Ok(c) => *cl = Some(c),
+                Err(e) => return Err(OpRes::Panic(format!("harness: connect failed: {}", e))),
+            }
+        }
+        let c = cl.as_mut().unwrap();
+        if let Err(e) = c.send(&crate::resp::command(args)) {
+            *cl = None;
+            return Err(OpRes::Err(format!("send failed: {}", e)));
+        }
+        match c.read_replies(1, std::time::Duration::from_secs(10)) {
+            Ok(mut r) => match r.pop() {
+                Some(crate::resp::F::Error(e)) => Err(OpRes::Err(format!("error reply: {}", e))),
+                Some(f) => Ok(f),
+                None => Err(OpRes::Panic("harness: empty reply list".into())),
+            },
+            Err(e) => {
+                let ended = c.eof || c.reset;
+                *cl = None;
+                if ended {
+                    Err(OpRes::Err(format!("connection ended without a reply: {}", e)))
+                } else {
+                    Err(OpRes::Panic(format!("no reply within 10 s: {}", e)))
+                }
+            }
+        }
+    }
+
+    fn apply_resp(&mut self, opi: usize, op: &Op) -> OpRes {
+        use crate::resp::F;
+        let n = self.keys.len();
+        match op {
+            Op::Set(ki, vs) => {
+                let k = self.keys[pick(*ki, n)].clone();
+                let v = val_bytes(vs, opi as u64);
+                match self.resp_roundtrip(&[b"SET", &k, &v]) {
+                    Ok(F::Simple(s)) if s == "OK" => OpRes::Ok,
+                    Ok(f) => OpRes::Panic(format!("SET answered {:?}", f)),
+                    Err(r) => r,
+                }
+            }
+            Op::Del(ki) => {
+                let k = self.keys[pick(*ki, n)].clone();
+                match self.resp_roundtrip(&[b"DEL", &k]) {
+                    Ok(F::Int(i)) if i == 0 || i == 1 => OpRes::Del(i == 1),
+                    Ok(f) => OpRes::Panic(format!("DEL answered {:?}", f)),
+                    Err(r) => r,
+                }
+            }
+            Op::Get(ki) => {
+                let k = self.keys[pick(*ki, n)].clone();
+                match self.resp_roundtrip(&[b"GET", &k]) {
+                    Ok(F::Null) => OpRes::Got(None),
+                    Ok(F::Bulk(v)) => OpRes::Got(Some(v)),
+                    Ok(f) => OpRes::Panic(format!("GET answered {:?}", f)),
+                    Err(r) => r,
+                }
+            }
+            _ => unreachable!(),
         }
     }
 
@@ -168,6 +253,12 @@ impl<'a> OpApplier<'a> {
 
     /// Drop the store and wait until its background worker is gone.
     pub fn close(&mut self) {
+        if let Some((srv, cl)) = self.net.take() {
+            if let Some(c) = cl {
+                c.close();
+            }
+            srv.stop(std::time::Duration::from_secs(10));
+        }
         if self.kv.take().is_some() {
             crate::store::wait_bg_exit(self.base_threads);
         }
@@ -175,6 +266,9 @@ impl<'a> OpApplier<'a> {
 
     /// Apply an op to the store; never panics.
     pub fn apply(&mut self, opi: usize, op: &Op) -> OpRes {
+        if self.via_resp && self.kv.is_some() && matches!(op, Op::Set(..) | Op::Del(_) | Op::Get(_)) {
+            return self.apply_resp(opi, op);
+        }
         let n = self.keys.len();
         let h = match &self.kv {
             Some(kv) => kv.get_handle(),
